@@ -225,7 +225,9 @@ func (a *FuncAn) termLin(call *ssa.Call, callee *ssa.Function, t dterm, isLen bo
 		if ct.v != nil {
 			return a.LenOf(ct.v), true
 		}
-		return AtomLin(a.atom("lenproj:"+ct.key, "len(field("+ct.key+"))", true)), true
+		lat := a.atom("lenproj:"+ct.key, "len(field("+ct.key+"))", true)
+		a.noteVersion(lat, ct.key)
+		return AtomLin(lat), true
 	}
 	if _, _, isInt := a.E.intInfo(typ); !isInt {
 		return Lin{}, false
@@ -313,6 +315,9 @@ func (a *FuncAn) predCallFacts(s *State, call *ssa.Call, truth bool) {
 // caller handed over: it is the representative of its location and nothing before it in the entry block can write.
 func (a *FuncAn) entryTerm(at *Atom) (dterm, bool, bool) {
 	f := a.Fn
+	if t, isLen, ok := a.preTermOf(at); ok {
+		return t, isLen, true
+	}
 	for i, p := range f.Params {
 		if _, _, isInt := a.E.intInfo(p.Type()); isInt {
 			if l := a.Lin(p); len(l.t) == 1 && l.t[0].a == at && l.t[0].k == 1 && l.C == 0 {
@@ -410,9 +415,19 @@ func (a *FuncAn) hoist(g Lin) (string, bool) {
 			}
 			l = Add(l, tl, x.k)
 		}
-		// the state right before the call: the block's entry facts plus nothing the block itself adds is enough for
-		// the idiom (the call is in the block the guarding branch leads to)
-		if !ca.Entails(c.Block(), l) {
+		// what holds right before the call: the facts on entry of its block (what the block itself adds before the
+		// call is not needed for the idiom: the call is in the block the guarding branch leads to) and the lemmas
+		// about values that exist by then
+		pb := ca.proverBefore(ca.in[c.Block()], c)
+		entailed := pb.Entails(l)
+		if os.Getenv("LW_HOISTDEBUG") == "all" {
+			fmt.Fprintf(os.Stderr, "hoist %s: goal %s at site in %s: site goal %s entailed=%v; facts %s\n", FuncShort(f), g.String(), FuncShort(c.Parent()), l.String(), entailed, ca.factsText(c.Block(), l))
+		}
+		if !entailed {
+			// the site's own callers may establish it (a reader method called from another reader method)
+			if _, ok := ca.hoistWithProver(pb, l, 1); ok {
+				continue
+			}
 			// the call site would have to establish it, and what it has there is a value outside its tracked model
 			if why, un := ca.untrackedIn(l); un {
 				a.hoistUntracked = "at the call site in " + FuncShort(c.Parent()) + " it depends on " + why
@@ -431,17 +446,23 @@ func (a *FuncAn) hoist(g Lin) (string, bool) {
 // hoistWith: hoist g, after cancelling atoms that are not entry terms (a loop index) with local facts of block b:
 // from  mu*g - la*f = g'  with f >= 0 a local fact and mu, la > 0, g' >= 0 at every call site gives g >= 0.
 func (a *FuncAn) hoistWith(b *ssa.BasicBlock, g Lin, depth int) (string, bool) {
+	if a.in[b] == nil {
+		return a.hoist(g)
+	}
+	return a.hoistWithProver(a.proverFor(a.in[b]), g, depth)
+}
+
+func (a *FuncAn) hoistWithProver(p *prover, g Lin, depth int) (string, bool) {
 	if why, ok := a.hoist(g); ok {
 		return why, true
 	}
-	if depth == 0 || a.in[b] == nil {
+	if depth == 0 {
 		return "", false
 	}
 	for _, t := range g.t {
 		if _, _, isEntry := a.entryTerm(t.a); isEntry {
 			continue
 		}
-		p := a.proverFor(a.in[b])
 		for _, fi := range p.byAtom[t.a] {
 			f := p.facts[fi]
 			d := f.Coef(t.a)
@@ -466,7 +487,7 @@ func (a *FuncAn) hoistWith(b *ssa.BasicBlock, g Lin, depth int) (string, bool) {
 				}
 				continue
 			}
-			if why, ok := a.hoistWith(b, ng, depth-1); ok {
+			if why, ok := a.hoistWithProver(p, ng, depth-1); ok {
 				return why + " (after cancelling " + t.a.Name + " with a local fact)", true
 			}
 		}
